@@ -2,6 +2,7 @@
 under the Lean semantics (Sem for Core/Mono/Lift/ANF, Go.Sem for the Go AST)."""
 import os, re, subprocess
 import vlib
+from props import c01pipe
 
 STAGES = ["core", "mono", "lift", "anf", "go"]
 # `src` = the SURFACE program (real ast::File dumps) under SrcSem: the reference whenever SrcSem decides
@@ -94,6 +95,8 @@ def collect(ctx, sub="c01", extra=()):
             d["src"] = vlib.unesc(r[2])
         elif r[1] == "STAGE":
             d["stages"][r[2]] = r[3]
+        elif r[1] == "GENV":
+            d["genv"] = r[2]
         elif r[1] == "SRCPLAIN":
             d["srcplain"] = r[2] if len(r) > 2 else ""
         elif r[1] == "SRCERR":
@@ -147,7 +150,7 @@ def expected_matches(pid, exp, got):
 def run(ctx):
     ctx.extract()
     from props import gocomp
-    ctx.build_lean([m for m in ["GomlVerif.Props.C01", "GomlVerif.Props.C01src", gocomp.PROP_MODULE]
+    ctx.build_lean([m for m in ["GomlVerif.Props.C01", "GomlVerif.Props.C01src", c01pipe.PROP_MODULE, gocomp.PROP_MODULE]
                     if os.path.exists(os.path.join(vlib.LEAN, m.replace(".", "/") + ".lean"))])
     if not ctx.build_harness():
         return ctx.finish("translation_validation", {"programs": 0, "disagreements_checked": 0, "samples": []}, [], "lake build")
@@ -305,6 +308,8 @@ def run(ctx):
             payload = dict(payload, src_with_declaration_order_initialisers={"status": a[0], "stdout": vlib.unesc(a[1])[:400]})
         ctx.report({"oracle": "stagewise", "first_divergent_stage": div, "kind": kind},
                    f"the {div} stage no longer behaves like the {ref_stage} stage ({blame})", dict(payload, blamed=blame))
+    # pipeline composition: composite middle-end model vs the real dumps, fragment of `pipeline_preserves`
+    pipe_cov = c01pipe.evaluate(ctx, progs)
     rejected = sum(1 for d in progs.values() if "reject" in d)
     panics = [d for d in progs.values() if "panic" in d]
     ctx.violations.sort(key=lambda v: len(v[2].get("src") or "x" * 10**6))
@@ -324,6 +329,7 @@ def run(ctx):
         "printed_go_parsed_back_to_ast": n_pprint, "fuel_exhausted(skipped)": n_fuel, "rejected_by_gocheck(owned by C02)": n_invalid_go, "programs_with_extern_calls(compared up to events)": n_extern,
         "generator_rejected": rejected, "compiler_panics_seen(owned by C04)": len(panics),
         "generator_features": feats,
+        "pipeline_composition": pipe_cov,
     }
     # ---- the Go back end (go/compile.rs): model = implementation, Sem(ANF) vs Go.Sem(Go) on its stream
     gocomp.add_to(ctx, "C01", cov)
@@ -334,5 +340,6 @@ def run(ctx):
         "floats: Go's shortest float formatting is not modelled; programs printing floats are compared only between stages that share the same formatting function",
         "go_pprint.rs is tied separately: the printed text of every program is parsed back by harness/src/goparse.rs (Go precedence, composite-literal rule) and must equal the AST with expression type annotations erased",
     ]
+    ctx.assumptions += c01pipe.ASSUMPTIONS
     tb = ["Lean 4 (compiled model executable)", "Sem/Go.Sem definitions", "SrcSem definition", "harness/src/dump.rs, godump.rs (IR serialisers)", "harness/src/astdump.rs (ast::File serialiser)", "tools/props/c01.py"]
     return ctx.finish("translation_validation", cov, tb, "gomlmodel srcsem + gomlmodel sem (Lean-compiled SrcSem / Sem / Go.Sem on the real AST and stage dumps)")
